@@ -279,6 +279,7 @@ def run_check(prop_name: str, tier: str, repo: str, jobs: int, seed: int, verbos
         sigs.setdefault((v['clause'], json.dumps(v['attrs'], sort_keys=True)), v)
     reported = []
     nondeterministic = []
+    shutil.rmtree(os.path.join(OUT, 'replays', pid), ignore_errors=True)   # replay files of an earlier run are stale
     for n, (sig, v) in enumerate(list(sigs.items())[:8], 1):
         ok, detail = confirm_in_fresh_process(prop_name, repo, v, tier)
         if ok:
